@@ -93,6 +93,19 @@ def gen_cases(tier, seed):
             if rep % 2:
                 o["MINIMUM_PERCENT_FED_BEFORE_NONHUMAN_CONSUMPTION_ALLOWED"] = [5, 15, 25, 10][(j + rep) % 4]
             cases.append(workload.pipeline_case(iso, o, "factory_foods_with_feed/%s/%s#%d" % (o["scenario"], o["shutoff"], rep)))
+    # no harvest at all (crop_disruption: all_crops_die_instantly): stored food is the only staple, and whatever round 2 hands to
+    # animals comes straight out of it; small countries (the optimiser pins their pre-determined consumption with its own,
+    # looser, tolerances) and large ones, every schedule that demands feed
+    pops = {r["iso3"]: float(r["population"]) for r in workload.country_table()}
+    small = sorted(i for i in isos if pops.get(i, 1e12) < 1e7)
+    rs = random.Random(4242 + seed)
+    pick = rs.sample(small, 9 if tier == "quick" else 60) + rs.sample([i for i in isos if i not in small], 3 if tier == "quick" else 20)
+    for j, iso in enumerate(pick):
+        o = workload.base_country(crop_disruption="all_crops_die_instantly", stored_food="baseline",
+                                  shutoff=["continued", "long_delayed_shutoff", "short_delayed_shutoff", "continued_after_10_percent_fed", "one_month_delayed_shutoff"][j % 5],
+                                  ratio_stocks_untouched=["zero", "baseline"][j % 2], cull=["do_eat_culled", "dont_eat_culled"][(j // 2) % 2], NMONTHS=[72, 120, 48][j % 3],
+                                  grasses=["country_nuclear_winter", "all_crops_die_instantly"][(j // 3) % 2] if "all_crops_die_instantly" in workload.families("country")["grasses"] else "country_nuclear_winter")
+        cases.append(workload.pipeline_case(iso, o, "no_harvest/%s/%s" % (o["shutoff"], o["cull"])))
     for T in THRESHOLDS:
         for j in range(4 if tier == "quick" else 24):
             o = workload.base_country(shutoff=rnd.choice(["continued", "long_delayed_shutoff", "continued_after_10_percent_fed", "short_delayed_shutoff"]),
